@@ -486,7 +486,10 @@ func constructSourceComment(module, file, leadingString string, includeSourceInf
 		return ""
 	}
 
-	return fmt.Sprintf(" #%s module: %s, file: %s", leadingString, module, file)
+	// a line break inside a name would end the comment and turn the rest of the name into DSL text
+	oneLine := strings.NewReplacer("\n", " ", "\r", " ")
+
+	return fmt.Sprintf(" #%s module: %s, file: %s", leadingString, oneLine.Replace(module), oneLine.Replace(file))
 }
 
 type transformOptions struct {
